@@ -28,6 +28,10 @@ Definition fq (neg : bool) (m : Uint63.int) (e : Z) : Q :=
   let z := Uint63.to_Z m in
   let z := if neg then (- z)%Z else z in
   if (0 <=? e)%Z then Qmake (Z.shiftl z e) 1 else Qmake z (Pos.shiftl 1 (Z.to_N (- e))).
+(* a big integer from its base-2^62 limbs, least significant first (decimal Z literals parse quadratically) *)
+Definition zbig (neg : bool) (limbs : list Uint63.int) : Z :=
+  let a := fold_right (fun l acc => (Uint63.to_Z l + 4611686018427387904 * acc)%Z) 0%Z limbs in
+  if neg then (- a)%Z else a.
 (* the four output tables are given as indices into one pool of distinct observed points (lossless compression) *)
 Definition unpool (pool : list (Q * Q)) (ix : list Z) : list (Q * Q) := map (fun i => znth pool i (0, 0)) ix.
 Definition mk_case_p nv fs cotan cot mode custom rej ne free bnd (pool : list (Q * Q)) iV iC ifV ifC turn D NU NV posw eo : tcase :=
